@@ -184,6 +184,49 @@ def nominal_requests_v1():
     }
 
 
+# ------------------------------------------------------------------ other commands in between
+
+T5, T1 = nominal_requests(), nominal_requests_v1()
+INTERLUDES = ["sign_unauth", "sign_auth", "sign_segwit", "advance", "advance-refused", "reset",
+              "ancestor", "state", "params", "signerHb", "getPubKey", "getPubKey-all",
+              "unknown-command", "refused-key"]
+
+
+def interlude(p, w, kinds, v1):
+    """Nominal requests of other kinds on the same manager (their replies are the business of
+    other checks: here they only have to be answered)."""
+    done = []
+    for k in kinds:
+        saved_plan = w.adv_plan
+        if v1:
+            reqs = [dict(T1["sign"])] if k.startswith("sign") else \
+                [dict(T1["getPubKey"], keyId=kp) for kp in (
+                    ALL_PATHS if k == "getPubKey-all" else ALL_PATHS[:1])] \
+                if k.startswith("getPubKey") else [{"command": "version"}]
+        elif k == "getPubKey-all":
+            reqs = [dict(T5["getPubKey"], keyId=kp) for kp in ALL_PATHS]
+        elif k == "advance-refused":
+            w.adv_plan = {"max_brothers": 0}       # the device refuses the first block's brother
+            reqs = [T5["advance"]]
+        elif k == "unknown-command":
+            reqs = [{"command": "nothing-like-it", "version": 5}]
+        elif k == "refused-key":
+            reqs = [dict(T5["getPubKey"], keyId="m/44'/1'/1'/1/1")]
+        else:
+            if k in ("advance", "ancestor"):
+                w.adv_plan = {"final": "total"}
+            reqs = [T5[k]]
+        for r in reqs:
+            rep = request(p, r)
+            check_sim(w)
+            if not isinstance(rep, dict) or type(rep.get("errorcode")) is not int:
+                from .core import Violation
+                raise Violation("reply-shape", "%r -> %r" % (r.get("command"), rep))
+        w.adv_plan = saved_plan
+        done.append("interlude:" + ("v1" if v1 else k))
+    return done
+
+
 def check_sim(w):
     """A bug inside the simulated device must never be mistaken for behaviour of the code under
     test: it is a harness error."""
